@@ -39,3 +39,39 @@ package http
 //@ props C14
 //@ modifies nothing
 //@ ensures result == nil
+
+// ---------------------------------------------------------------- registration: every provider type name selects its ammo format
+//@ func Import
+//@ props C08 C17 C18
+//@ may_panic true
+//@ at call register.Provider#0 assert arg(name) == "http"
+//@ at call register.Provider#1 assert arg(name) == "http/json"
+//@ at call register.Provider#2 assert arg(name) == "uri"
+//@ at call register.Provider#3 assert arg(name) == "uripost"
+//@ at call register.Provider#4 assert arg(name) == "raw"
+//@ at call httpRegister.HTTPMW assert arg(name) == "header/date"
+
+//@ func Import#lit0
+//@ props C08 C17
+//@ at call NewProvider assert [the-format-named-in-the-configuration] arg(fs) == fs && arg(conf) == cfg && cfg.Decoder == cfg0.Decoder
+//@ ensures result0 == result_of(NewProvider, 0) && result1 == result_of(NewProvider, 1)
+//@ func Import#lit1
+//@ props C08 C17
+//@ at call NewProvider assert [json-lines] arg(fs) == fs && arg(conf) == cfg && cfg.Decoder == config.DecoderJSONLine
+//@ ensures result0 == result_of(NewProvider, 0) && result1 == result_of(NewProvider, 1)
+//@ func Import#lit2
+//@ props C08 C17
+//@ at call NewProvider assert [uri] arg(fs) == fs && arg(conf) == cfg && cfg.Decoder == config.DecoderURI
+//@ ensures result0 == result_of(NewProvider, 0) && result1 == result_of(NewProvider, 1)
+//@ func Import#lit3
+//@ props C08 C17
+//@ at call NewProvider assert [uripost] arg(fs) == fs && arg(conf) == cfg && cfg.Decoder == config.DecoderURIPost
+//@ ensures result0 == result_of(NewProvider, 0) && result1 == result_of(NewProvider, 1)
+//@ func Import#lit4
+//@ props C08 C17
+//@ at call NewProvider assert [raw] arg(fs) == fs && arg(conf) == cfg && cfg.Decoder == config.DecoderRaw
+//@ ensures result0 == result_of(NewProvider, 0) && result1 == result_of(NewProvider, 1)
+//@ func Import#lit5
+//@ props C08 C17
+//@ at call headerdate.NewMiddleware assert arg(cfg) == cfg
+//@ ensures result0 == result_of(headerdate.NewMiddleware, 0) && result1 == result_of(headerdate.NewMiddleware, 1)
